@@ -154,7 +154,7 @@ func benignRegression(prop, repo, root, self, scratch string, r *core.Run) {
 		Reported string `json:"reported,omitempty"`
 	}
 	out := make([]outcome, len(dirs))
-	sem := make(chan bool, 4)
+	sem := make(chan bool, 8)
 	var wg sync.WaitGroup
 	for i, d := range dirs {
 		wg.Add(1)
